@@ -323,6 +323,173 @@ VF_PART(simtub_masked_vs_removed)
   });
 }
 
+
+// -----------------------------------------------------------------------------------------------------
+// conditional simulations onto a grid whose NODES CARRY DATA: all / some / none of the samples sit exactly on a node,
+// every selection mask on the data, target masks that include nodes carrying a datum, 1..3 simulations.
+// (the conditioning step copies a datum lying on a node onto that node: both the datum's and the node's mask matter there)
+// -----------------------------------------------------------------------------------------------------
+namespace sc
+{
+static const int NTM = 5;
+// grid: 1-D 5 nodes at 0..4 ; 2-D 3 x 2 nodes at (0..2, 0..1) ; unit mesh, origin 0
+static int nnodes(int ndim) { return ndim == 1 ? 5 : 6; }
+static DbGrid* mkGrid(int ndim, const VD& tsel)
+{
+  VectorInt nx = ndim == 1 ? VectorInt({5}) : VectorInt({3, 2});
+  DbGrid* g = DbGrid::create(nx, VectorDouble(ndim, 1.), VectorDouble(ndim, 0.));
+  if (!tsel.empty()) g->addSelection(VectorDouble(tsel.begin(), tsel.end()));
+  return g;
+}
+// node rank carrying sample i in the "on node" layouts (-1: off node)
+static const int NODE1[5] = {0, 2, 3, 1, 4};           // 1-D: x = node index
+static const int NODE2[5] = {0, 2, 4, 3, 5};           // 2-D: rank = ix + 3 * iy -> (0,0) (2,0) (1,1) (0,1) (2,1)
+// kind 0: every sample on a node ; 1: samples 1 and 3 moved off their node ; 2: the generic layout of the menu (none on a node)
+static Raw mkData(int ndim, int kind, int n, std::vector<int>& node)
+{
+  Raw r = make_raw(ndim, 1, 0, n);
+  node.assign(n, -1);
+  if (kind == 2) return r;
+  for (int i = 0; i < n; i++)
+  {
+    int nd = ndim == 1 ? NODE1[i] : NODE2[i];
+    bool off = kind == 1 && (i % 2 == 1);
+    if (ndim == 1) r.x[0][i] = nd + (off ? 0.375 : 0.);
+    else { r.x[0][i] = nd % 3 + (off ? 0.375 : 0.); r.x[1][i] = nd / 3 + (off ? 0.25 : 0.); }
+    if (!off) node[i] = nd;
+  }
+  return r;
+}
+// target masks: 0 none ; 1 node of sample 0 masked ; 2 nodes of samples 0 and 2 masked ; 3 a node without datum masked (n<=4) ;
+// 4 every node carrying one of the first three samples masked
+static VD tmask(int ndim, int k)
+{
+  int nn = nnodes(ndim);
+  if (k == 0) return VD();
+  VD t(nn, 1.);
+  const int* N = ndim == 1 ? NODE1 : NODE2;
+  if (k == 1) t[N[0]] = 0;
+  if (k == 2) { t[N[0]] = 0; t[N[2]] = 0; }
+  if (k == 3) t[N[4]] = 0;
+  if (k == 4) { t[N[0]] = 0; t[N[1]] = 0; t[N[2]] = 0; }
+  return t;
+}
+static const int MODELS[7] = {1, 2, 3, 4, 5, 6, 8};   // ranks in the monovariate menu (the intrinsic linear model is left out)
+}  // namespace sc
+
+VF_PART(simtub_data_on_grid_nodes)
+{
+  using namespace c5;
+  using namespace sc;
+  bool T = C.thorough();
+  int nmax = T ? 5 : 4, nmod = T ? 7 : 4;
+  Space sp;
+  sp.axis("n", nmax - 2).axis("ndim", 2).axis("kind", 3).axis("mask", 1 << nmax).axis("tmask", NTM).axis("nbsimu", 3).axis("neigh", 2).axis("model", nmod);
+  for_each_case(C, sp, [&](uint64_t id, const std::vector<int>& idx) {
+    int n = 3 + idx[0], ndim = idx[1] + 1, kind = idx[2], ktm = idx[4], nbsimu = idx[5] + 1, kneigh = idx[6], im = MODELS[idx[7]];
+    unsigned mask = (unsigned)idx[3];
+    if (mask >= (1u << n)) return;
+    if (ktm == 3 && n > 4) { C.skip(); return; }   // node of sample 4 carries a datum when n = 5
+    std::string kase = std::to_string(id);
+    set_ndim(ndim);
+    std::vector<int> node;
+    Raw full = mkData(ndim, kind, n, node);
+    full.sel = VD(n); for (int i = 0; i < n; i++) full.sel[i] = (mask >> i) & 1;
+    std::vector<int> keep = keepOf(full);
+    int nkeep = 0; for (int k : keep) nkeep += k;
+    if (nkeep == 0) { C.skip(); C.outcome("empty-active-set:not-judged"); return; }
+    Raw red = reduce_raw(full, keep);
+    VD tsel = tmask(ndim, ktm);
+    int nn = nnodes(ndim);
+    std::string what = " ; data=" + raw_str(full) + " grid=" + (ndim == 1 ? "5 nodes at 0..4" : "3x2 nodes at (0..2,0..1)") + " node mask=" + vstr(tsel) + " nbsimu=" + std::to_string(nbsimu) + " model=" + model_name(1, im) +
+                       " neigh=" + (kneigh == 0 ? "unique" : "moving nmaxi=3");
+    if (id % 9973 == 5) C.sample("{\"id\":" + kase + ",\"data\":" + raw_str(full) + ",\"node_mask\":" + vstr(tsel) + ",\"model\":" + jstr(model_name(1, im)) + "}");
+    auto run = [&](const Raw& data) {
+      Obs o;
+      DbP din(raw_to_db(data));
+      std::unique_ptr<DbGrid> dout(mkGrid(ndim, tsel));
+      ModelP m(make_model(ndim, 1, im));
+      std::unique_ptr<ANeigh> ng(kneigh == 0 ? (ANeigh*)NeighUnique::create() : (ANeigh*)NeighMoving::create(false, 3, TEST));
+      law_set_random_seed(13579);
+      o.err = simtub(din.get(), dout.get(), m.get(), ng.get(), nbsimu, 4321, 10);
+      int nc = dout->getColumnNumber();
+      for (int k = 0; k < nbsimu; k++) for (int t = 0; t < nn; t++) o.add("simulation " + std::to_string(k) + " [node " + std::to_string(t) + "]", o.err ? TEST : dout->getValueByColIdx(t, nc - nbsimu + k));
+      return o;
+    };
+    // child output: one line per finding class  "<class>|text"
+    ChildResult cr = run_child([&](int wfd) {
+      Obs a = run(full), b = run(red);
+      double worst = 0;
+      std::string d = cmpObs(a, b, 1e-9, worst);
+      std::string out = "D|" + decade(worst) + "|" + d + "\n";
+      if (a.err == 0)
+      {
+        for (int k = 0; k < nbsimu; k++)
+          for (int t = 0; t < nn; t++)
+          {
+            double v = a.val[k * nn + t];
+            bool tmasked = !tsel.empty() && tsel[t] <= 0;
+            if (tmasked && !undef(v)) out += std::string(v == 0. ? "Z|" : "V|") + a.lab[k * nn + t] + " = " + fmt(v) + "\n";
+          }
+        // active, defined data lying on an active node are honoured exactly in every simulation
+        for (int i = 0; i < n; i++)
+        {
+          if (node[i] < 0 || !keep[i]) continue;
+          if (!tsel.empty() && tsel[node[i]] <= 0) continue;
+          for (int k = 0; k < nbsimu; k++)
+          {
+            double v = a.val[k * nn + node[i]];
+            if (undef(v) || std::fabs(v - full.z[0][i]) > 1e-9 * std::max(1., std::fabs(v))) out += "H|" + a.lab[k * nn + node[i]] + " = " + fmt(v) + " but datum " + std::to_string(i) + " = " + fmt(full.z[0][i]) + " lies on that node\n";
+          }
+        }
+      }
+      child_write(wfd, out);
+      return 0;
+    }, 5.);
+    C.eval();
+    if (!cr.clean() || cr.code != 0 || cr.data.size() < 3)
+    {
+      C.outcome("child:" + cr.describe());
+      C.violation(std::string("simtub-on-nodes:") + (cr.kind == ChildResult::TIMEOUT ? "does-not-return" : "crash"), "conditional simulation " + cr.describe() + what, kase);
+      return;
+    }
+    bool reduced = nkeep < n;
+    // collision classes of this case (non-vacuity): a masked datum on an active node / an active datum on a masked node
+    bool colA = false, colB = false;
+    for (int i = 0; i < n; i++)
+    {
+      if (node[i] < 0) continue;
+      bool tm = !tsel.empty() && tsel[node[i]] <= 0;
+      if (!keep[i] && !tm) colA = true;
+      if (keep[i] && tm) colB = true;
+    }
+    if (colA) C.outcome("collision:masked-datum-on-active-node");
+    if (colB) C.outcome("collision:active-datum-on-masked-node");
+    if (colA || colB) C.nontrivial(id); else if (reduced) C.nontrivial(id);
+    std::stringstream ss(cr.data);
+    std::string line;
+    bool z = false;
+    while (std::getline(ss, line))
+    {
+      if (line.size() < 2) continue;
+      char k = line[0];
+      std::string txt = line.substr(2);
+      if (k == 'D')
+      {
+        size_t q = txt.find('|');
+        std::string dec = txt.substr(0, q), d = txt.substr(q + 1);
+        C.outcome(std::string(kind == 0 ? "all-on-nodes:" : kind == 1 ? "some-on-nodes:" : "none-on-nodes:") + (reduced ? "some-removed:" : "nothing-removed:") + (d.empty() ? dec : "DIFFERENT"));
+        if (!d.empty())
+          C.violation(std::string("simtub-on-nodes:") + (colA ? "masked-datum-on-node:" : kind == 2 ? "off-node-data:" : "") + "differs-from-removed:model=" + model_name(1, im), "conditional simulation differs: " + d + what, kase);
+      }
+      else if (k == 'Z') z = true;
+      else if (k == 'V') C.violation("simtub-on-nodes:masked-node-holds-a-value", "masked node: " + txt + " (neither the undefined value nor the initial 0)" + what, kase);
+      else if (k == 'H') C.violation("simtub-on-nodes:datum-on-active-node-not-honoured", txt + what, kase);
+    }
+    if (z) C.violation("simtub:masked-target-written", "masked grid nodes hold 0 in the new simulation variables instead of the undefined value" + what, kase);
+  });
+}
+
 // =====================================================================================================
 // matrices, variograms, statistics, migrate, table reductions
 // =====================================================================================================
@@ -347,7 +514,7 @@ VF_PART(matrices_masked_vs_removed)
       auto run = [&](const Raw& data) {
         Obs o;
         DbP db(raw_to_db(data));
-        DbP dt(mkTargets(S.ndim, S.ilay, VD({1, 0, 1, 1}), false));
+        DbP dt(mkTargets(S.ndim, S.ilay, VD({1, 1, 0, 1}), false));   // target 1 (on datum 0, possibly masked) stays active
         ModelP m(mkModel(S.ndim, S.nvar, km, 2));
         switch (op)
         {
